@@ -421,7 +421,7 @@ pub fn release_check(cfg: &Cfg, s: &Sys, max_rto: usize) -> Vec<Violation> {
             ));
         }
         for i in [A, B] {
-            let w = &c.side[1 - i].written;
+            let w = c.owed(i);
             let r = &c.side[i].read;
             if r != w {
                 return Err(Violation::new(
